@@ -532,6 +532,11 @@ class _PumpCtx:
                         return {eq} if isinstance(e.ops[0], ast.Eq) else {not eq}
                 if _self_attr(e, FLAG) and flag is not None:
                     return {flag}
+                if isinstance(e, ast.Name) and e.id != ev and e.id not in f.params():
+                    # is_disconnect = event['type'] == ...   (single-assignment local holding the comparison)
+                    ds = local_defs(f, e.id)
+                    if len(ds) == 1 and isinstance(ds[0], ast.Compare):
+                        return atom(ds[0])
                 return None
             return atom
 
@@ -836,7 +841,8 @@ def r6_end_of_stream(run):
                 return short(cond)
         return None
 
-    sections = [(None, [cfg.entry])] + [(sn, [y for (y, _l) in cfg.succ[sn]]) for sn in susp]
+    # a suspension that can only be reached with a message already taken from the queue starts no section of interest
+    sections = [(None, [cfg.entry])] + [(sn, [y for (y, _l) in cfg.succ[sn]]) for sn in susp if not flow.dominated_by_nodes(cfg, sn, pops)]
     for sn, starts in sections:
         path = flow.find_path(cfg, starts, [cfg.exit], avoid_nodes=set(pops) | set(susp), avoid_edges=empty_edges)
         if path is not None:
